@@ -39,13 +39,16 @@ Kth(q, k) == CHOOSE v \in Rng(q) : Cardinality({i \in 1..Len(q) : q[i] < v}) <= 
 P99x100(q) == LET n == Len(q) k == (99 * (n - 1)) \div 100 r == (99 * (n - 1)) % 100 IN
               IF k + 1 >= n THEN 100 * Kth(q, n - 1) ELSE 100 * Kth(q, k) + r * (Kth(q, k + 1) - Kth(q, k))
 
-\* observed micro-seconds `obs` equals X / (D * tps) seconds within 2 micro:  |obs * D * tps - X * 10^6| <= 2 * D * tps
-CloseTo(obs, X, D, tps) ==
-  /\ ProdCmp(<<IF obs >= 2 THEN obs - 2 ELSE 0, D, tps>>, <<X, 1000000>>) <= 0
-  /\ ProdCmp(<<obs + 2, D, tps>>, <<X, 1000000>>) >= 0
-StatOK(e, stat, q, kind) ==     \* stat = <<tag, micro>>;  q = latencies in ticks
+\* observed figure `st` = <<tag, v>> (v in micro-units, or - above 2147 units, 32-bit integers - in milli-units) equals X / (D * tps) within 2 of its units
+IsNum(st) == st[1] \in {"num", "milli"}
+UnitOf(st) == IF st[1] = "milli" THEN 1000 ELSE 1000000
+CloseTo(st, X, D, tps) ==
+  /\ IsNum(st)
+  /\ ProdCmp(<<IF st[2] >= 2 THEN st[2] - 2 ELSE 0, D, tps>>, <<X, UnitOf(st)>>) <= 0
+  /\ ProdCmp(<<st[2] + 2, D, tps>>, <<X, UnitOf(st)>>) >= 0
+StatOK(e, stat, q, kind) ==     \* stat = <<tag, v>>;  q = latencies in ticks
   IF q = <<>> THEN stat[1] = "nan"
-  ELSE stat[1] = "num" /\ (IF kind = "mean" THEN CloseTo(stat[2], SumSeq(q), Len(q), cfg.tps) ELSE CloseTo(stat[2], P99x100(q), 100, cfg.tps))
+  ELSE IF kind = "mean" THEN CloseTo(stat, SumSeq(q), Len(q), cfg.tps) ELSE CloseTo(stat, P99x100(q), 100, cfg.tps)
 
 LatOf(sel(_)) == LET ps == SelectSeq([p \in 1..Len(a.prio) |-> p], LAMBDA p : sel(p) /\ a.done[p] >= 0) IN
                  [j \in 1..Len(ps) |-> a.done[ps[j]] - a.arr[ps[j]]]
@@ -84,11 +87,11 @@ EndClauses(e) ==
   /\ Flag(e, "C06.Partition.sum", s.pipelines_all.arrival_count = s.pipelines_query.arrival_count + s.pipelines_interactive.arrival_count + s.pipelines_batch.arrival_count
                                  /\ s.pipelines_all.completion_count = s.pipelines_query.completion_count + s.pipelines_interactive.completion_count + s.pipelines_batch.completion_count, "sum")
   \* throughput = successful containers / duration (dur in micro-seconds, itself known to one micro-second):  obs_micro * dur_micro = nsucc * 10^12  within 2 micro
-  /\ Flag(e, "C06.Throughput", s.throughput[1] = "num" /\
-          ProdCmp(<<IF s.throughput[2] >= 2 THEN s.throughput[2] - 2 ELSE 0, IF cfg.dur >= 1 THEN cfg.dur - 1 ELSE 0>>, <<a.nsucc, 1000000, 1000000>>) <= 0 /\
-          ProdCmp(<<s.throughput[2] + 2, cfg.dur + 1>>, <<a.nsucc, 1000000, 1000000>>) >= 0, <<s.throughput, a.nsucc, cfg.dur>>)
+  /\ Flag(e, "C06.Throughput", IsNum(s.throughput) /\
+          ProdCmp(<<IF s.throughput[2] >= 2 THEN s.throughput[2] - 2 ELSE 0, IF cfg.dur >= 1 THEN cfg.dur - 1 ELSE 0>>, <<a.nsucc, UnitOf(s.throughput), 1000000>>) <= 0 /\
+          ProdCmp(<<s.throughput[2] + 2, cfg.dur + 1>>, <<a.nsucc, UnitOf(s.throughput), 1000000>>) >= 0, <<s.throughput, a.nsucc, cfg.dur>>)
   /\ Flag(e, "C06.ContainerP99", IF a.ctimes = <<>> THEN s.p99_latency[1] = "nan"
-                                 ELSE s.p99_latency[1] = "num" /\ CloseTo(s.p99_latency[2], P99x100(a.ctimes), 100, cfg.tps), <<s.p99_latency, a.ctimes>>)
+                                 ELSE CloseTo(s.p99_latency, P99x100(a.ctimes), 100, cfg.tps), <<s.p99_latency, a.ctimes>>)
   \* adjusted latency (SimulatorStats.adjusted_latency, printed by `eudoxia run`): class means weighted 10/5/1 by completions, divided by the completion rate
   /\ LET lq == LatOf(LAMBDA p : a.prio[p] = "Q") li == LatOf(LAMBDA p : a.prio[p] = "I") lb == LatOf(LAMBDA p : a.prio[p] = "B")
          A == 10 * SumSeq(lq) + 5 * SumSeq(li) + SumSeq(lb)
@@ -96,8 +99,12 @@ EndClauses(e) ==
          compl == Len(lq) + Len(li) + Len(lb)
      IN Flag(e, "C06.AdjustedLatency",
              IF compl = 0 THEN s.adjusted[1] = "inf"
-             ELSE s.adjusted[1] = "num" /\ ProdCmp(<<IF s.adjusted[2] >= 2 THEN s.adjusted[2] - 2 ELSE 0, W, compl, cfg.tps>>, <<A, np, 1000000>>) <= 0
-                                        /\ ProdCmp(<<s.adjusted[2] + 2, W, compl, cfg.tps>>, <<A, np, 1000000>>) >= 0,
+             \* (figures above 2147 s come in milli-seconds - 32-bit integers -, and beyond two million seconds only as "huge")
+             ELSE LET unit == IF s.adjusted[1] = "milli" THEN 1000 ELSE 1000000 IN
+                  \/ s.adjusted[1] = "huge" /\ ProdCmp(<<A, np>>, <<2000000, W, compl, cfg.tps>>) >= 0
+                  \/ /\ s.adjusted[1] \in {"num", "milli"}
+                     /\ ProdCmp(<<IF s.adjusted[2] >= 2 THEN s.adjusted[2] - 2 ELSE 0, W, compl, cfg.tps>>, <<A, np, unit>>) <= 0
+                     /\ ProdCmp(<<s.adjusted[2] + 2, W, compl, cfg.tps>>, <<A, np, unit>>) >= 0,
              <<s.adjusted, "weighted latency ticks", A, "weighted count", W, "completed", compl, "arrived", np>>)
   \* C15 seen through a whole simulation (run_simulator builds the generator from the parameter set): a class with probability 0
   \* never arrives, and with probability 1 nothing else does
